@@ -164,7 +164,7 @@ fn run_loop_case(c: &LoopCase, big: &LoopDev, small: &LoopDev, rec: &mut CaseRec
 fn loop_case_strategy() -> impl Strategy<Value = LoopCase> {
     (
         prop_oneof![4 => Just(FlagSet::Neither), 2 => Just(FlagSet::ForceCreate), 2 => Just(FlagSet::SeedOutput), 1 => Just(FlagSet::Both)],
-        prop_oneof![5 => Just(ArchKind::Valid), 1 => Just(ArchKind::NotAnArchive), 1 => Just(ArchKind::HeaderBitFlip), 1 => Just(ArchKind::NoChunkerParams), 1 => Just(ArchKind::TruncatedHeader)],
+        prop_oneof![5 => Just(ArchKind::Valid), 1 => Just(ArchKind::NotAnArchive), 1 => Just(ArchKind::HeaderBitFlip), 1 => Just(ArchKind::NoChunkerParams), 1 => Just(ArchKind::TruncatedHeader), 1 => Just(ArchKind::OverflowingChunkLocation), 1 => Just(ArchKind::RebuildIndexOutOfRange)],
         prop_oneof![3 => Just(None), 1 => Just(Some(true)), 2 => Just(Some(false))],
         prop_oneof![2 => source_strategy(3, 600), 1 => Just(vec![Seg::Random { n: 900, seed: 3 }])],
         any::<u32>(),
@@ -206,6 +206,10 @@ pub enum ArchKind {
     UnknownAlgorithm,
     /// valid checksum, dictionary bytes are not a protobuf message
     GarbageDictionary,
+    /// valid checksum, a descriptor whose archive offset makes the chunk location overflow u64
+    OverflowingChunkLocation,
+    /// valid checksum, a rebuild index pointing beyond the descriptors
+    RebuildIndexOutOfRange,
 }
 #[derive(Clone, Copy, Debug, Serialize, Deserialize, PartialEq)]
 pub enum Cmd {
@@ -260,6 +264,20 @@ fn make_archive(kind: ArchKind, valid: &[u8], flip: u16) -> Vec<u8> {
             if let Some(p) = &mut d.chunker_params {
                 p.chunking_algorithm = 7;
             }
+        }),
+        ArchKind::OverflowingChunkLocation => rebuild(&|d| {
+            // the LAST descriptor, so that everything before it could be cloned if validation came too late
+            if let Some(c) = d.chunk_descriptors.last_mut() {
+                c.archive_offset = u64::MAX - (flip as u64 % 64);
+            } else {
+                d.chunk_descriptors.push(fmt::Descriptor { checksum: vec![1; 64], archive_size: 1, archive_offset: u64::MAX - 3, source_size: 1 });
+                d.rebuild_order.push(0);
+                d.source_total_size = 1;
+            }
+        }),
+        ArchKind::RebuildIndexOutOfRange => rebuild(&|d| {
+            let n = d.chunk_descriptors.len() as u32;
+            d.rebuild_order.push(n + (flip as u32 % 5));
         }),
         ArchKind::GarbageDictionary => {
             let db = vec![0xffu8; 40];
@@ -450,6 +468,8 @@ fn case_strategy() -> impl Strategy<Value = Case> {
             1 => Just(ArchKind::UnknownCompression),
             1 => Just(ArchKind::UnknownAlgorithm),
             1 => Just(ArchKind::GarbageDictionary),
+            2 => Just(ArchKind::OverflowingChunkLocation),
+            1 => Just(ArchKind::RebuildIndexOutOfRange),
         ],
         prop_oneof![3 => Just(None), 1 => Just(Some(true)), 2 => Just(Some(false))],
         prop_oneof![3 => source_strategy(3, 600), 1 => Just(vec![Seg::Random { n: 700, seed: 5 }])],
